@@ -39,17 +39,102 @@ func isSimpleFor(t *tr, x *ast.ForStmt) bool {
 	return !exits(x.Body.List)
 }
 
-func hasWhile(stmts []ast.Stmt) bool {
+// hasWhile: some loop needs the fuel parameter (a while loop, or a for loop that is not an index loop)
+func hasWhile(t *tr, stmts []ast.Stmt) bool {
 	found := false
 	for _, s := range stmts {
 		ast.Inspect(s, func(n ast.Node) bool {
-			if fs, ok := n.(*ast.ForStmt); ok && fs.Init == nil && fs.Post == nil {
-				found = true
+			if fs, ok := n.(*ast.ForStmt); ok {
+				if (fs.Init == nil && fs.Post == nil) || !indexLoopForm(t, fs) {
+					found = true
+				}
 			}
 			return true
 		})
 	}
 	return found
+}
+
+// indexLoopForm: `for i := a; i < b; i++` or `for i := a; i >= b; i--` over an int variable that the body does not modify
+func indexLoopForm(t *tr, x *ast.ForStmt) bool {
+	init, ok1 := x.Init.(*ast.AssignStmt)
+	cnd, ok2 := x.Cond.(*ast.BinaryExpr)
+	post, ok3 := x.Post.(*ast.IncDecStmt)
+	if !ok1 || !ok2 || !ok3 || init.Tok != token.DEFINE || len(init.Lhs) != 1 || len(init.Rhs) != 1 {
+		return false
+	}
+	iv, ok := init.Lhs[0].(*ast.Ident)
+	if !ok {
+		return false
+	}
+	iobj := t.u.info.Defs[iv]
+	ci, okc := cnd.X.(*ast.Ident)
+	pi, okp := post.X.(*ast.Ident)
+	if !okc || !okp || iobj == nil || t.u.info.Uses[ci] != iobj || t.u.info.Uses[pi] != iobj {
+		return false
+	}
+	if kd, w := classify(iobj.Type()); kd != kInt || w != 64 {
+		return false
+	}
+	if !((cnd.Op == token.LSS && post.Tok == token.INC) || (cnd.Op == token.GEQ && post.Tok == token.DEC)) {
+		return false
+	}
+	// the loop variable must not be assigned in the body
+	mod := false
+	ast.Inspect(x.Body, func(n ast.Node) bool {
+		switch y := n.(type) {
+		case *ast.AssignStmt:
+			for _, l := range y.Lhs {
+				if id, ok := l.(*ast.Ident); ok && t.u.info.Uses[id] == iobj {
+					mod = true
+				}
+			}
+		case *ast.IncDecStmt:
+			if id, ok := y.X.(*ast.Ident); ok && t.u.info.Uses[id] == iobj {
+				mod = true
+			}
+		}
+		return true
+	})
+	return !mod
+}
+
+// loopAsWhile: any other `for init; cond; post { body }` is `init; for cond { body; post }` (a while loop with fuel)
+func (t *tr) loopAsWhile(x *ast.ForStmt, rest []ast.Stmt, depth int, k func() string) string {
+	if x.Post != nil {
+		hasContinue := false
+		var walk func(n ast.Node)
+		walk = func(n ast.Node) {
+			ast.Inspect(n, func(y ast.Node) bool {
+				switch z := y.(type) {
+				case *ast.ForStmt, *ast.RangeStmt, *ast.FuncLit:
+					if z != n {
+						return false
+					}
+				case *ast.BranchStmt:
+					if z.Tok == token.CONTINUE {
+						hasContinue = true
+					}
+				}
+				return true
+			})
+		}
+		walk(x.Body)
+		if hasContinue {
+			return t.fail(x, "general for loop with a post statement and `continue`")
+		}
+	}
+	body := append([]ast.Stmt{}, x.Body.List...)
+	if x.Post != nil {
+		body = append(body, x.Post)
+	}
+	w := &ast.ForStmt{For: x.For, Cond: x.Cond, Body: &ast.BlockStmt{Lbrace: x.Body.Lbrace, List: body, Rbrace: x.Body.Rbrace}}
+	var stmts []ast.Stmt
+	if x.Init != nil {
+		stmts = append(stmts, x.Init)
+	}
+	stmts = append(stmts, w)
+	return t.block(append(stmts, rest...), depth, k)
 }
 
 func containsReturn(stmts []ast.Stmt) bool {
@@ -135,30 +220,34 @@ func (t *tr) wrapRet(r string) string {
 }
 
 func (t *tr) loopGeneral(x *ast.ForStmt, rest []ast.Stmt, depth int, k func() string) string {
-	f := t.f
-	bad := false
-	ast.Inspect(x.Body, func(n ast.Node) bool {
-		switch b := n.(type) {
-		case *ast.GoStmt, *ast.DeferStmt, *ast.FuncLit, *ast.LabeledStmt, *ast.SelectStmt:
-			bad = true
-		case *ast.BranchStmt:
-			if b.Label != nil || (b.Tok != token.BREAK && b.Tok != token.CONTINUE) {
-				bad = true
-			}
-		}
-		return true
-	})
-	if bad {
-		return t.fail(x, "loop body with go / defer / closure / label / goto")
-	}
-	written := t.assignedObjs(x.Body.List)
 	var iobj types.Object
-	var iname, list, cond string
+	var list string
 	var condE ast.Expr
 	switch {
 	case x.Init == nil && x.Post == nil:
 		condE = x.Cond // may be nil: for { }
+		if condE != nil {
+			// a condition that calls a stateful helper is evaluated inside the body: for { if cond {} else { break }; … }
+			hasStateful := false
+			ast.Inspect(condE, func(n ast.Node) bool {
+				if ce, ok := n.(ast.Expr); ok {
+					if _, sg := t.statefulSig(ce); sg != nil {
+						hasStateful = true
+					}
+				}
+				return true
+			})
+			if hasStateful {
+				guard := &ast.IfStmt{If: x.For, Cond: condE, Body: &ast.BlockStmt{Lbrace: x.For, Rbrace: x.For},
+					Else: &ast.BlockStmt{Lbrace: x.For, List: []ast.Stmt{&ast.BranchStmt{TokPos: x.For, Tok: token.BREAK}}, Rbrace: x.For}}
+				nb := &ast.BlockStmt{Lbrace: x.Body.Lbrace, List: append([]ast.Stmt{guard}, x.Body.List...), Rbrace: x.Body.Rbrace}
+				return t.loopCore(x, nb, nil, "", nil, nil, rest, depth, k)
+			}
+		}
 	default:
+		if !indexLoopForm(t, x) {
+			return t.loopAsWhile(x, rest, depth, k)
+		}
 		init, ok1 := x.Init.(*ast.AssignStmt)
 		cnd, ok2 := x.Cond.(*ast.BinaryExpr)
 		post, ok3 := x.Post.(*ast.IncDecStmt)
@@ -178,9 +267,7 @@ func (t *tr) loopGeneral(x *ast.ForStmt, rest []ast.Stmt, depth int, k func() st
 		if kd, w := classify(iobj.Type()); kd != kInt || w != 64 {
 			return t.fail(x, "loop variable of type %s", iobj.Type())
 		}
-		if written[iobj] {
-			return t.fail(x, "loop variable is modified in the body")
-		}
+		written := t.assignedObjs(x.Body.List)
 		inv := true
 		ast.Inspect(cnd.Y, func(n ast.Node) bool {
 			if id, ok := n.(*ast.Ident); ok {
@@ -202,7 +289,35 @@ func (t *tr) loopGeneral(x *ast.ForStmt, rest []ast.Stmt, depth int, k func() st
 		default:
 			return t.fail(x, "loop direction")
 		}
-		iname = leanName(iv.Name)
+	}
+	return t.loopCore(x, x.Body, iobj, list, condE, nil, rest, depth, k)
+}
+
+// loopCore: a loop over an index list (iobj != nil) or a while loop (iobj == nil, condE may be nil), body with GoSem.Step
+func (t *tr) loopCore(x ast.Node, xBody *ast.BlockStmt, iobj types.Object, list string, condE ast.Expr, pre func(in string), rest []ast.Stmt, depth int, k func() string) string {
+	f := t.f
+	bad := false
+	ast.Inspect(xBody, func(n ast.Node) bool {
+		switch b := n.(type) {
+		case *ast.GoStmt, *ast.DeferStmt, *ast.FuncLit, *ast.LabeledStmt, *ast.SelectStmt:
+			bad = true
+		case *ast.BranchStmt:
+			if b.Label != nil || (b.Tok != token.BREAK && b.Tok != token.CONTINUE) {
+				bad = true
+			}
+		}
+		return true
+	})
+	if bad {
+		return t.fail(x, "loop body with go / defer / closure / label / goto")
+	}
+	written := t.assignedObjs(xBody.List)
+	var iname, cond string
+	if iobj != nil {
+		if written[iobj] {
+			return t.fail(x, "loop variable is modified in the body")
+		}
+		iname = "i"
 	}
 	var state []types.Object
 	for o := range written {
@@ -210,7 +325,8 @@ func (t *tr) loopGeneral(x *ast.ForStmt, rest []ast.Stmt, depth int, k func() st
 			state = append(state, o)
 		}
 	}
-	sort.Slice(state, func(i, j int) bool { return state[i].Pos() < state[j].Pos() })
+	t.rankAll(state)
+	sort.Slice(state, func(i, j int) bool { return t.rank(state[i]) < t.rank(state[j]) })
 	var tys, inits []string
 	for _, o := range state {
 		tys = append(tys, t.leanTypeOfObj(o))
@@ -227,8 +343,8 @@ func (t *tr) loopGeneral(x *ast.ForStmt, rest []ast.Stmt, depth int, k func() st
 	f.loopN++
 	ln := fmt.Sprintf("loop%d", f.loopN)
 	sn := fmt.Sprintf("s%d", f.loopN)
-	for iname != "" && f.hasBinder(iname) {
-		iname += "'"
+	if iname != "" {
+		iname = fmt.Sprintf("i%d", f.loopN) // canonical, not the Go name
 	}
 	savedB, savedEnv, savedName := f.binders, t.cloneEnv(), f.name
 	savedViews := map[types.Object]*view{}
@@ -240,6 +356,9 @@ func (t *tr) loopGeneral(x *ast.ForStmt, rest []ast.Stmt, depth int, k func() st
 	if iobj != nil {
 		f.binders = append(f.binders, binder{iname, "Int"})
 		f.env[iobj] = iname
+		if pre != nil {
+			pre(iname)
+		}
 	}
 	proj := func(base string, i int) string {
 		p := base
@@ -274,7 +393,7 @@ func (t *tr) loopGeneral(x *ast.ForStmt, rest []ast.Stmt, depth int, k func() st
 		cond = t.cond(condE)
 	}
 	f.loops = append(f.loops, &loopCtx{state: stateNow})
-	body := t.block(x.Body.List, 1, func() string { return "GoSem.Step.next " + stateNow() })
+	body := t.block(xBody.List, 1, func() string { return "GoSem.Step.next " + stateNow() })
 	f.loops = f.loops[:len(f.loops)-1]
 	if cond != "" {
 		body = fmt.Sprintf("  if %s then\n%s\n  else GoSem.Step.brk %s", cond, body, sn)
@@ -303,10 +422,10 @@ func (t *tr) loopGeneral(x *ast.ForStmt, rest []ast.Stmt, depth int, k func() st
 	for i, o := range state {
 		f.env[o] = t.define(o.Name(), t.leanTypeOfObj(o), proj(res+".2", i))
 	}
-	if !containsReturn(x.Body.List) {
+	if !containsReturn(xBody.List) {
 		return t.block(rest, depth, k)
 	}
-	if iobj == nil && condE == nil && !hasBreak(x.Body.List) {
+	if iobj == nil && condE == nil && !hasBreak(xBody.List) {
 		// `for { … return … }`: the statements after the loop are unreachable in Go; running out of fuel gives the
 		// current state with zero results (tie theorems are stated for sufficient fuel)
 		if len(rest) != 0 {
